@@ -54,7 +54,8 @@ VARIABLES
   waits,     \* number of bounded network waits spent by stop() (each <= request timeout)
   inBackoff, \* a per-node fetch task sleeps its retry back-off after a failed fetch
   hasAssign, \* the coordination task holds an assignment (only then is there something to commit at close)
-  rebDone    \* the commit-before-rejoin of a rebalance that was in progress at stop() has been done
+  rebDone    \* number of commits-before-rejoin done for the rebalance that was in progress at stop() (a rejoin that is
+             \* answered REBALANCE_IN_PROGRESS is prepared again; each round is bounded, MaxReb rounds are modelled)
 
 vars == <<phase, step, sub, live, timers, conns, joined, coordOk, left, reachAtLeave, raised, waits, inBackoff, rebDone, hasAssign>>
 
@@ -66,7 +67,7 @@ Init ==
   /\ live \in [CompSet -> 0..MaxLive]
   /\ timers \in 0..MaxLive /\ conns \in 0..MaxLive
   /\ joined \in BOOLEAN /\ coordOk \in BOOLEAN
-  /\ left = FALSE /\ reachAtLeave = FALSE /\ raised = FALSE /\ waits = 0 /\ inBackoff \in BOOLEAN /\ rebDone = FALSE /\ hasAssign \in BOOLEAN
+  /\ left = FALSE /\ reachAtLeave = FALSE /\ raised = FALSE /\ waits = 0 /\ inBackoff \in BOOLEAN /\ rebDone = 0 /\ hasAssign \in BOOLEAN
 
 \* ---- running: background activity and the environment move freely ------------------------------
 Churn ==
@@ -91,6 +92,7 @@ StopCall ==
   /\ UNCHANGED <<live, timers, conns, joined, coordOk, left, reachAtLeave, raised, waits, inBackoff, rebDone, hasAssign>>
 
 Cur == Comps[step]
+MaxReb == 3
 
 \* ---- consumer: GroupCoordinator.close ------------------------------------------------------------
 \* last auto-commit by the coordination task: ONE bounded attempt chain -- it ends by a reply, by the
@@ -105,8 +107,8 @@ LastCommit ==
 \* stop() during a rebalance: the coordination task finishes the step it is in -- the commit that precedes a
 \* rejoin -- before it looks at the closing flag: one more bounded wait, at most once
 RebalanceCommit ==
-  /\ phase = "closing" /\ Cur = "coord" /\ sub \in {"lastcommit", "leave"} /\ ~rebDone
-  /\ rebDone' = TRUE
+  /\ phase = "closing" /\ Cur = "coord" /\ sub \in {"lastcommit", "leave"} /\ rebDone < MaxReb
+  /\ rebDone' = rebDone + 1
   /\ waits' = IF coordOk THEN waits ELSE waits + 1
   /\ UNCHANGED <<phase, step, sub, live, timers, conns, joined, coordOk, left, reachAtLeave, raised, inBackoff, hasAssign>>
 
@@ -170,9 +172,9 @@ LiveSpec == Spec /\ WF_vars(LastCommit) /\ WF_vars(Leave) /\ WF_vars(Flush) /\ W
 TypeOK == phase \in {"running", "closing", "stopped"} /\ step \in 0..Len0(Comps)
 NothingLeft == phase = "stopped" => (\A c \in CompSet : live[c] = 0) /\ timers = 0 /\ conns = 0
 StopReturnsNormally == ~raised
-\* bounded: at most one request timeout each for the commit of an interrupted rebalance, the last commit,
+\* bounded: at most one request timeout each for the commit of each round of an interrupted rebalance, the last commit,
 \* LeaveGroup and the flush
-BoundedWaits == waits <= 4
+BoundedWaits == waits <= 3 + MaxReb
 LeftIfReachable == phase = "stopped" /\ Kind = "consumer" /\ joined /\ ~Static /\ reachAtLeave => left
 StaticStays == Static => ~left
 \* closing order: a component is closed only after the ones before it
